@@ -264,9 +264,74 @@ func arConcrete(p *Prog) *arBounded {
 			}
 			return []Val{&TupleV{E: []Val{int64(n), e}}}, true
 		}
+		isArchive := func(st *State, pp Ptr) bool {
+			if st.Heap[pp.Obj] == nil {
+				return false
+			}
+			ov, isO := st.Heap[pp.Obj].V.(OpaqueV)
+			return isO && ov.Name == "the-archive"
+		}
+		type secInfo struct{ off, n int64 }
+		sections := map[string]secInfo{} // by the section's name: sections over the archive with concrete bounds
 		m.Hooks["io.NewSectionReader"] = func(m *Machine, st *State, call *ssa.CallCommon, args []Val) ([]Val, bool) {
-			id := st.alloc(types.Typ[types.Int], OpaqueV{fmt.Sprintf("section(%s,%s)", valStr(args[1]), valStr(args[2]))})
+			name := fmt.Sprintf("section(%s,%s)", valStr(args[1]), valStr(args[2]))
+			id := st.alloc(types.Typ[types.Int], OpaqueV{name})
+			base := args[0]
+			if iv, isI := base.(IfaceV); isI {
+				base = iv.V
+			}
+			if pp, isP := base.(Ptr); isP && isArchive(st, pp) {
+				if o, ok1 := args[1].(int64); ok1 {
+					if n, ok2 := args[2].(int64); ok2 {
+						sections[name] = secInfo{o, n}
+					}
+				}
+			}
 			return []Val{Ptr{Obj: id}}, true
+		}
+		// a probe of the iterator's own through the member's section reader (io.SectionReader's contract: offsets
+		// outside [0, n) give 0, io.EOF; a read that reaches the section's end gives io.EOF with the bytes read)
+		secOf := func(st *State, v Val) (secInfo, bool) {
+			pp, isP := v.(Ptr)
+			if !isP || st.Heap[pp.Obj] == nil {
+				return secInfo{}, false
+			}
+			ov, isO := st.Heap[pp.Obj].V.(OpaqueV)
+			if !isO {
+				return secInfo{}, false
+			}
+			si, ok := sections[ov.Name]
+			return si, ok
+		}
+		m.Hooks["(*io.SectionReader).Size"] = func(m *Machine, st *State, call *ssa.CallCommon, args []Val) ([]Val, bool) {
+			si, ok := secOf(st, args[0])
+			return []Val{si.n}, ok
+		}
+		m.Hooks["(*io.SectionReader).ReadAt"] = func(m *Machine, st *State, call *ssa.CallCommon, args []Val) ([]Val, bool) {
+			si, ok := secOf(st, args[0])
+			buf, ok1 := args[1].(SliceV)
+			off, ok2 := args[2].(int64)
+			if !ok || !ok1 || !ok2 || buf.Abs {
+				return nil, false
+			}
+			if off < 0 || off >= si.n {
+				return []Val{&TupleV{E: []Val{int64(0), eofVal}}}, true
+			}
+			want := buf.Len_
+			atEnd := false
+			if max := si.n - off; int64(want) > max {
+				want, atEnd = int(max), true
+			}
+			n := 0
+			for i := 0; i < want && si.off+off+int64(i) < int64(len(content)); i++ {
+				st.store(Ptr{Obj: buf.Obj, Path: pathAppend(buf.Path, buf.Lo+i)}, int64(content[si.off+off+int64(i)]))
+				n++
+			}
+			var e Val = nilV{}
+			if n < want || atEnd {
+				e = eofVal
+			}
+			return []Val{&TupleV{E: []Val{int64(n), e}}}, true
 		}
 		st := initState(m, "deb")
 		inID := st.alloc(types.Typ[types.Int], OpaqueV{"the-archive"})
